@@ -69,7 +69,11 @@ impl Semaphore {
     /// Otherwise, this returns a [`SemaphorePermit`] representing the
     /// acquired permits.
     pub async fn acquire_many(&self, permits: u32) -> Result<SemaphorePermit<'_>, AcquireError> {
-        self.sem.acquire(permits as usize).await?;
+        if permits == 0 && !self.sem.is_closed() {
+            // tokio hands out an empty permit; BatchSemaphore asserts num_permits > 0
+            return Ok(SemaphorePermit { sem: self, permits });
+        }
+        self.sem.acquire(permits.max(1) as usize).await?;
         Ok(SemaphorePermit { sem: self, permits })
     }
 
@@ -88,6 +92,13 @@ impl Semaphore {
     /// and a [`TryAcquireError::NoPermits`] if there are not enough permits left.
     /// Otherwise, this returns a [`SemaphorePermit`] representing the acquired permits.
     pub fn try_acquire_many(&self, permits: u32) -> Result<SemaphorePermit<'_>, TryAcquireError> {
+        if permits == 0 {
+            return if self.sem.is_closed() {
+                Err(TryAcquireError::Closed)
+            } else {
+                Ok(SemaphorePermit { sem: self, permits })
+            };
+        }
         match self.sem.try_acquire(permits as usize) {
             Ok(()) => Ok(SemaphorePermit { sem: self, permits }),
             Err(e) => Err(e),
